@@ -206,6 +206,16 @@ func (env *SpecEnv) eval(e Expr) *Val {
 			q = "exists"
 			body = tAnd(append(facts, body)...)
 		} else if len(facts) > 0 {
+			// the type invariants of the cells mentioned hold for every index: state them once as an axiom (so that a
+			// quantified hypothesis can be used) and keep them as a guard (harmless for a quantified goal)
+			if saved == nil {
+				fb, fpat := normaliseForall(tAnd(facts...), qnames)
+				if fpat != "" {
+					fx.sol.Assert("(forall (" + strings.Join(decls, " ") + ") (! " + fb + " :pattern (" + fpat + ")))")
+				} else {
+					fx.sol.Assert("(forall (" + strings.Join(decls, " ") + ") " + tAnd(facts...) + ")")
+				}
+			}
 			body = tImp(tAnd(facts...), body)
 		}
 		if x.Forall {
@@ -756,6 +766,23 @@ func (env *SpecEnv) call(x *ECall) *Val {
 			kv = mkInt(kv.S, mt.Key())
 		}
 		return mkInt(fx.mapKeyTerm(st, kv), nil)
+	case "mapkey":
+		// mapkey(TypeName, leaf...): the map-key term of a struct value of that type with the given scalar leaves
+		id, ok := x.Args[0].(*EIdent)
+		if !ok {
+			return env.fail("mapkey(TypeName, leaves...)")
+		}
+		t := fx.eng.lookupType(id.Name, env.pkg)
+		if t == nil {
+			return env.fail("mapkey: unknown type " + id.Name)
+		}
+		var xs []string
+		for _, a := range x.Args[1:] {
+			xs = append(xs, env.evalInt(a))
+		}
+		return mkInt(fx.mapKeyFromLeaves(t, xs), nil)
+	case "structkey":
+		return mkInt(fx.mapKeyTerm(st, arg(0)), nil)
 	case "errIs":
 		fx.errAxioms()
 		return mkBool("(errIs " + arg(0).S + " " + arg(1).S + ")")
